@@ -1,9 +1,72 @@
-(* Props/C09.v — property C09 (work in progress: statements are completed below) *)
+(* Props/C09.v — property C09: structurally illegal designs are always rejected at elaboration.
+   ONLY statements closed by exact + Print Assumptions. *)
 From Coq Require Import ZArith List Bool Arith Lia Permutation.
 Import ListNotations.
-From PV Require Import Sched.Accept Elab.Nets Elab.Address Elab.AddressProofs Elab.Defects.
+From PV Require Import Sched.Accept Elab.Nets Elab.Address Elab.AddressProofs Elab.Defects Elab.DefectsProofs.
 
+(* the structural walk of the implementation (same object / ancestor chain either way / overlapping sibling slice)
+   relates two well-formed signal objects iff they share a bit of the packed root signal *)
 Theorem C09_walk_iff_shared_bit a b : wf_addr a = true -> wf_addr b = true -> compat a b = true ->
   (walk_rel a b = true <-> exists v, in_ivl v (ivl_of a) = true /\ in_ivl v (ivl_of b) = true).
-Proof. exact (walk_iff_shared_bit a b). Qed.
-Print Assumptions C09_walk_iff_shared_bit.
+Proof. exact (walk_iff_perbit a b). Qed.
+
+Theorem C09_walk_eq_overlap_in_design D n m : wf_design_addrs D = true ->
+  walk_rel (adr D n) (adr D m) = ivl_rel (adr D n) (adr D m).
+Proof. exact (walk_iff_perbit_design D n m). Qed.
+
+(* the decision does not depend on the order of the update-block facts, on the order of the connect statements, or on
+   which side of a connect statement a signal is written (for the bit-level decision and for the faithful model) *)
+Theorem C09_defect_order_indep O par sigs wr wr' rd rd' cn cn' bs :
+  Permutation wr' wr -> Permutation rd' rd -> Permutation cn' (cflip_some bs cn) ->
+  defect_with O (mkD par sigs wr rd cn) = defect_with O (mkD par sigs wr' rd' cn').
+Proof. exact (defect_order_indep O par sigs wr wr' rd rd' cn cn' bs). Qed.
+
+Theorem C09_bit_level_defect_order_indep par sigs wr wr' rd rd' cn cn' bs :
+  Permutation wr' wr -> Permutation rd' rd -> Permutation cn' (cflip_some bs cn) ->
+  bit_level_defect (mkD par sigs wr rd cn) = bit_level_defect (mkD par sigs wr' rd' cn').
+Proof. exact (bit_level_defect_order_indep par sigs wr wr' rd rd' cn cn' bs). Qed.
+
+Theorem C09_defect_same_statements O D D' : design_equiv D D' -> defect_with O D = defect_with O D'.
+Proof. exact (defect_equiv_indep O D D'). Qed.
+
+(* the faithful model of the implementation's checks decides exactly the bit-level property, except in two situations *)
+Theorem C09_elab_model_iff_bit_level D : wf_design_addrs D = true ->
+  no_sameblk_sib_overlap D = true -> no_samenet_overlap D = true -> elab_model D = bit_level_defect D.
+Proof. exact (elab_iff_partial D). Qed.
+
+(* ... and the first exception is real: one block writing s.x[0:5] and s.x[3:8] is rejected although every bit has one driver *)
+Theorem C09_elab_complete_refuted :
+  wf_design_addrs f6_design = true /\ bit_level_defect f6_design = None /\ elab_model f6_design = Some MultiWriter.
+Proof. exact elab_complete_refuted. Qed.
+
+(* non-vacuity: a two-component design. component 1 is a child of the top (0).
+   nodes: 0 = top InPort i (8 bit), 1 = top Wire w, 2 = w[0:4], 3 = w[4:8], 4 = child InPort c.i, 5 = child OutPort c.o,
+          6 = top OutPort o, 7 = w[2:6] *)
+Definition exS : list sinfo :=
+  [mkSig PIn 0%nat (mkAddr 1%nat 8%Z []); mkSig PWire 0%nat (mkAddr 2%nat 8%Z []); mkSig PWire 0%nat (mkAddr 2%nat 8%Z [Slc 0%Z 4%Z]);
+   mkSig PWire 0%nat (mkAddr 2%nat 8%Z [Slc 4%Z 8%Z]); mkSig PIn 1%nat (mkAddr 3%nat 8%Z []); mkSig POut 1%nat (mkAddr 4%nat 8%Z []);
+   mkSig POut 0%nat (mkAddr 5%nat 8%Z []); mkSig PWire 0%nat (mkAddr 2%nat 8%Z [Slc 2%Z 6%Z])].
+Definition exD (wr : list wfact) (cn : list cfact) : design := mkD [None; Some 0%nat] exS wr [] cn.
+Definition W (b n : nat) := mkW b 0%nat false n OpAt.
+Example C09_nonvacuous :
+  (* legal: i -> c.i, child block drives c.o, c.o -> o; two blocks write the touching slices w[0:4], w[4:8] *)
+  bit_level_defect (exD [W 0 2; W 1 3; mkW 2 1%nat false 5%nat OpAt] [mkC 0 4 0; mkC 6 5 0]%nat) = None /\
+  elab_model       (exD [W 0 2; W 1 3; mkW 2 1%nat false 5%nat OpAt] [mkC 0 4 0; mkC 6 5 0]%nat) = None /\
+  (* overlapping slices in two blocks *)
+  bit_level_defect (exD [W 0 2; W 1 7] []) = Some MultiWriter /\
+  (* the child's InPort c.i (driven from i) drives the parent's wire w: port rule; passing it on to c.o inside the child is fine *)
+  bit_level_defect (exD [] [mkC 0 4 0; mkC 4 1 0]%nat) = Some PortRule /\
+  bit_level_defect (exD [] [mkC 0 4 0; mkC 4 5 1]%nat) = None /\
+  bit_level_defect (exD [] [mkC 1 6 0]%nat) = Some NoWriter /\
+  bit_level_defect (exD [W 0 1] [mkC 1 6 0; mkC 6 0 0]%nat) = Some MultiWriter /\
+  bit_level_defect (exD [mkW 0 0 false 1 OpEq]%nat []) = Some BlkWrite /\
+  bit_level_defect (exD [mkW 0 0 true 1 OpAt]%nat []) = Some FFBlkWrite /\
+  bit_level_defect (exD [mkW 0 0 true 2 OpShl]%nat []) = Some FFNonTop /\
+  bit_level_defect (exD [mkW 0 1 false 5 OpAt]%nat [mkC 5 4 1]%nat) = Some InvalidConn /\
+  bit_level_defect (exD [mkW 0 1 false 5 OpAt]%nat [mkC 5 4 0]%nat) = None /\
+  wf_design_addrs (exD [] []) = true.
+Proof. vm_compute. repeat split. Qed.
+
+Print Assumptions C09_walk_iff_shared_bit. Print Assumptions C09_walk_eq_overlap_in_design.
+Print Assumptions C09_defect_order_indep. Print Assumptions C09_bit_level_defect_order_indep. Print Assumptions C09_defect_same_statements.
+Print Assumptions C09_elab_model_iff_bit_level. Print Assumptions C09_elab_complete_refuted.
